@@ -37,14 +37,15 @@ Proof.
   f_equal. apply IH. simpl in H. exact H.
 Qed.
 
-Lemma count_buffer_app Pm phc t l x : has_future t l = true ->
-  count_buffer Pm phc t (l ++ x) = count_buffer Pm phc t l.
+Lemma count_buffer_app skip Pm phc t l x : has_future t l = true ->
+  count_buffer skip Pm phc t (l ++ x) = count_buffer skip Pm phc t l.
 Proof.
   unfold has_future. induction l as [|y l IH]; simpl; intros H; [discriminate|].
   destruct y; try reflexivity.
   destruct ((t <? r)%Z) eqn:E; simpl.
   - rewrite orb_true_r. reflexivity.
-  - rewrite orb_false_r. destruct ((t <? Z.of_nat k * Pm + phc)%Z); [reflexivity|].
+  - destruct ((t <? Z.of_nat k * Pm + phc)%Z); [reflexivity|]. simpl.
+    destruct (skip && (r =? t)%Z); [reflexivity|].
     f_equal. apply IH. simpl in H. exact H.
 Qed.
 
@@ -249,7 +250,7 @@ Proof.
   destruct (ext_at _ _ _ (Next G c) He) as [t Ht]; [apply cch_lt; lia | rewrite reader_Next, Eb; reflexivity|].
   destruct (ext_at _ _ _ (TsIn G c) He) as [t2 Ht2]; [apply cch_lt; lia | rewrite reader_TsIn, Eb; reflexivity|].
   rewrite Ht, (hd_opt_app _ t _ E), Ht2, (has_future_app _ _ t2 Ef).
-  rewrite (count_buffer_app _ _ _ _ t2 Ef), (count_latest_app _ _ _ t2 Ef). auto.
+  rewrite (count_buffer_app _ _ _ _ _ t2 Ef), (count_latest_app _ _ _ t2 Ef). auto.
 Qed.
 
 Lemma stable_select c l u u' r : (c < NCn)%nat -> ext (cact G 6 c) u u' ->
